@@ -20,6 +20,8 @@ const propertyID = "C19"
 
 var batchSizes = [4]int{4, 10, 25, 50}
 
+const sweepBase = 1_000_000_000
+
 func batchRange(b int) (from, to int) {
 	per := 0
 	for _, s := range batchSizes {
@@ -150,10 +152,20 @@ func runProc(timeout time.Duration, env []string, bin string, args ...string) pr
 // genBatch asks the plain build for the specs and reference tables of batch bn.
 func (sp *simProc) genBatch(classified string, seed uint64, tier string, bn int, out string) {
 	from, to := batchRange(bn)
+	sweep := bn%16 == 7
+	if sweep {
+		// sweep batches live in an index space of their own, so that consecutive
+		// sweep batches cover consecutive preemption points of one base spec
+		n := bn / 16
+		from, to = sweepBase+n*50, sweepBase+n*50+50
+	}
 	args := []string{"gen", "-corpus", classified, "-seed", strconv.FormatUint(seed, 10),
 		"-tier", tier, "-from", strconv.Itoa(from), "-to", strconv.Itoa(to), "-batch", strconv.Itoa(bn), "-out", out}
 	if sp.b.Instr != nil && sp.b.Instr.Seams["gc_lifetime"] > 0 {
 		args = append(args, "-lifetimes")
+	}
+	if sweep {
+		args = append(args, "-sweep")
 	}
 	if bn%16 == 15 {
 		// soak batch: 50 runs in one process, all on one ecosystem
